@@ -153,7 +153,7 @@ Definition eval_partition (p : cpart) (minimum : f32) (allowed now : Z)
   match n with
   | O => Ok (StOK, None, None, f32_zero)
   | _ =>
-    let first := match first_some_idx (cp_offsets p) 0 with Some i => i | None => (n - 1)%nat end in
+    let first := match first_some_idx (cp_offsets p) 0 with Some i => i | None => n end in
     let offs := skipn first (cp_offsets p) in
     let k := length offs in
     let complete := if (k <? n)%nat then f32_div (f32_of_int (Z.of_nat k)) (f32_of_int (Z.of_nat n))
